@@ -1,4 +1,4 @@
-import AndaVerif.Proofs.TxKeys
+import AndaVerif.Proofs.TxEnv
 import AndaVerif.Proofs.TxTime
 /-
 C18 — Reading AS OF a past point returns what was current then.
@@ -50,6 +50,36 @@ theorem purged_has_no_past (pre suf : List Stmt) (i : Id) (hi : i ∈ erasedRun 
   unfold asOf
   rw [hlog, elementAt_skip_newer extra _ i _ hnew, elementAt_eraseAll_self _ _ i _ hi]
   rfl
+
+/-- The schema environment of a past point: for every history of statements **and schema
+activations**, every point `k` of it and every later suffix (further statements, further
+activations): `schema_version_at` over the final activation registry at the coordinate of point `k`
+is the environment version that was in force at `k` — an activation committing at sequence `q` is
+in force from `q` on, never from `q - 1`. -/
+theorem schema_env_as_of_is_then (pre suf : List Ev) :
+    schemaVersionAt (runE (runE Store.init pre) suf).envs (runE Store.init pre).seq = (runE Store.init pre).envVersion := by
+  have hk := runE_HInv init_HInv pre
+  obtain ⟨_, ⟨extra, hlog, hnew⟩, _⟩ := runE_logs hk suf
+  rw [hlog, schemaVersionAt_eq, sva_skip_newer extra _ _ 0 hnew]
+  exact hk.e.cur
+
+/-- `as_of_is_then` for histories that also contain schema activations -/
+theorem as_of_is_then_with_activations (pre suf : List Ev) (i : Id) (hi : i ∉ erasedRunE (runE Store.init pre) suf) :
+    asOf (runE (runE Store.init pre) suf) i (runE Store.init pre).seq = current (runE Store.init pre) i := by
+  have hk := runE_HInv init_HInv pre
+  obtain ⟨⟨extra, hlog, hnew⟩, _, _⟩ := runE_logs hk suf
+  unfold asOf current
+  rw [hlog, elementAt_skip_newer extra _ i _ hnew, elementAt_eraseAll_other _ _ i _ hi]
+  exact hk.v.cur i
+
+/-- a statement, an activation at sequence 2, a statement, another activation at sequence 4: the
+coordinates 1 and 3 keep the versions 1 and 2 — the activation's own coordinate is the first under
+the new environment -/
+def histEnv : List Ev :=
+  [.stmt { dry := false, clauses := [.createConcept 1 1 1 1 false] }, .activate,
+   .stmt { dry := false, clauses := [.createConcept 1 2 0 2 false] }, .activate]
+example : (runE Store.init histEnv).envs = [(4, 3), (2, 2), (0, 1)] ∧
+    (List.range 6).map (schemaVersionAt (runE Store.init histEnv).envs) = [1, 1, 2, 2, 3, 3] := by decide
 
 /-- the invariant behind it holds along every history -/
 theorem history_reconstructs_present (l : List Stmt) : VInv (run Store.init l) :=
